@@ -7,12 +7,21 @@ package main
 import (
 	"bytes"
 	"crypto/sha1"
+	dsql "database/sql"
 	"encoding/hex"
+	"errors"
 	"fmt"
 	"net"
 	"strings"
+	"time"
 
 	"github.com/dolthub/vitess/go/mysql"
+	gomysql "github.com/go-sql-driver/mysql"
+	"github.com/sirupsen/logrus"
+
+	sqle "github.com/dolthub/go-mysql-server"
+	"github.com/dolthub/go-mysql-server/memory"
+	"github.com/dolthub/go-mysql-server/server"
 
 	"github.com/dolthub/go-mysql-server/sql"
 	"github.com/dolthub/go-mysql-server/sql/mysql_db"
@@ -41,6 +50,51 @@ type caseT struct {
 	Name    string `json:"name,omitempty"`
 	Note    string `json:"note,omitempty"`
 	Out     string `json:"out,omitempty"`
+	Pw      string `json:"pw,omitempty"` // wire cases: the password the real client (go-sql-driver) logs in with
+}
+
+// wireAttempt starts a real server (server.NewServer on an ephemeral 127.0.0.1 port) over an engine whose mysql database
+// holds exactly cs.Users, logs in with go-sql-driver as cs.Name / cs.Pw and, when accepted, asks CURRENT_USER().
+// Returns the identity the session runs as, or denied (error 1045), or another error.
+func wireAttempt(cs caseT) (accepted bool, ident string, denied bool, other error) {
+	pro := memory.NewDBProvider(memory.NewDatabase("db"))
+	e := sqle.NewDefault(pro)
+	mdb := e.Analyzer.Catalog.MySQLDb
+	mdb.SetPersister(&mysql_db.NoopPersister{})
+	mdb.SetEnabled(true)
+	ed := mdb.Editor()
+	for _, a := range cs.Users {
+		ps := mysql_db.NewPrivilegeSet()
+		ed.PutUser(&mysql_db.User{User: a.Name, Host: a.Host, AuthString: a.Auth, Locked: a.Locked, Plugin: a.Plugin, PrivilegeSet: ps})
+	}
+	ed.Close()
+	srv, err := server.NewServer(server.Config{Protocol: "tcp", Address: "127.0.0.1:0"}, e, sql.NewContext, memory.NewSessionBuilder(pro), nil)
+	if err != nil {
+		return false, "", false, err
+	}
+	go srv.Start()
+	defer srv.Close()
+	_, port, _ := net.SplitHostPort(srv.Listener.Addr().String())
+	cfg := gomysql.NewConfig()
+	cfg.User, cfg.Passwd, cfg.Net, cfg.Addr = cs.Name, cs.Pw, "tcp", "127.0.0.1:"+port
+	cfg.Timeout, cfg.ReadTimeout = 5*time.Second, 10*time.Second
+	// a Connector, not a DSN: FormatDSN drops the password when the user name is empty
+	connector, err := gomysql.NewConnector(cfg)
+	if err != nil {
+		return false, "", false, err
+	}
+	conn := dsql.OpenDB(connector)
+	defer conn.Close()
+	var cu string
+	err = conn.QueryRow("SELECT CURRENT_USER()").Scan(&cu)
+	if err != nil {
+		var me *gomysql.MySQLError
+		if errors.As(err, &me) && me.Number == 1045 {
+			return false, "", true, nil
+		}
+		return false, "", false, err
+	}
+	return true, cu, false, nil
 }
 
 const native = "mysql_native_password"
@@ -267,7 +321,37 @@ func runLogin(c *lib.Ctx, cs caseT) {
 	var g mysql.Getter
 	var err error
 	var nativeOK bool
-	p, pv := lib.Recover(func() { g, err = db.ValidateHash(cs.Salt, cs.Name, cs.Resp, addr) })
+	var p bool
+	var pv string
+	if cs.Kind == "wire" {
+		// the real salt is chosen by the server and not observable; the verdict for an honest client does not depend on
+		// it (C40_honest_client_accepted / C40_accept_iff), so the model and the predicate use a surrogate salt
+		cs.Resp = honest(cs.Salt, cs.Pw)
+		acc, ident, denied, other := wireAttempt(cs)
+		switch {
+		case other != nil:
+			id := c.CaseNoModel(cs, "")
+			c.PredFail(id, "wire/login-failed-with-another-error", fmt.Sprintf("login as %q with accounts %v: %v", cs.Name, cs.Users, other), cs)
+			return
+		case denied:
+			err = errors.New("Access denied (1045)")
+		case acc:
+			var m *acct
+			for i := range cs.Users {
+				if cs.Users[i].Name+"@"+cs.Users[i].Host == ident {
+					m = &cs.Users[i]
+				}
+			}
+			if m == nil {
+				id := c.CaseNoModel(cs, "")
+				c.PredFail(id, "wire/current-user-is-not-an-account", fmt.Sprintf("login as %q accepted, CURRENT_USER() = %q is none of the accounts %v", cs.Name, ident, cs.Users), cs)
+				return
+			}
+			g = sql.MysqlConnectionUser{User: m.Name, Host: m.Host}
+		}
+	} else {
+		p, pv = lib.Recover(func() { g, err = db.ValidateHash(cs.Salt, cs.Name, cs.Resp, addr) })
+	}
 	p2, pv2 := lib.Recover(func() {
 		nativeOK = mysql_db.VerifC40NewUserValidator(db, mysql.MysqlNativePassword).HandleUser(cs.Name, addr)
 	})
@@ -301,7 +385,7 @@ func runLogin(c *lib.Ctx, cs caseT) {
 	if accepted && cs.Enabled {
 		key = fmt.Sprintf("l|%v|%s|%s|%x", cs.Users, cs.Name, cs.Host, cs.Resp)
 	}
-	c.Count("login/" + strings.SplitN(cs.Out, ":", 2)[0][:4] + "/resp_len_" + lenClass(len(cs.Resp)))
+	c.Count(cs.Kind + "/" + strings.SplitN(cs.Out, ":", 2)[0][:4] + "/resp_len_" + lenClass(len(cs.Resp)))
 	term := fmt.Sprintf("(CLogin %s %s %s %s %s %s %s %s)", coqBool(cs.Enabled), lib.CoqListOf(cs.Users, coqUser),
 		lib.CoqStr(cs.Name), lib.CoqStr(clientHost), lib.CoqBytes(cs.Salt), lib.CoqBytes(cs.Resp), outTerm, coqBool(nativeOK))
 	id := c.Case(term, cs, key)
@@ -381,7 +465,7 @@ func run(c *lib.Ctx, cs caseT) {
 		runHostPat(c, cs)
 	case "sha":
 		runSha(c, cs)
-	case "login":
+	case "login", "wire":
 		runLogin(c, cs)
 	default:
 		panic("unknown case kind " + cs.Kind)
@@ -583,7 +667,53 @@ func genLogin(r *lib.RNG) caseT {
 	return cs
 }
 
+// genWire: a login case for the real client: client host is always 127.0.0.1, native-password accounts with well-formed
+// stored strings, the client knows a password (mostly that of a matching account)
+func genWire(r *lib.RNG) caseT {
+	cs := genLogin(r)
+	cs.Kind, cs.Enabled, cs.Host = "wire", true, "127.0.0.1"
+	cs.Salt = randBytes(r, 20)
+	var match []acct
+	for i := range cs.Users {
+		a := &cs.Users[i]
+		a.Plugin = native
+		if r.Chance(1, 2) {
+			a.Host = lib.Pick(r, []string{"localhost", "127.0.0.1", "::1", "%", "127.%", "local%", "%.0.0.1", "10.%", "%host"})
+		}
+		a.Auth = stored(lib.Pick(r, pws))
+	}
+	seen := map[string]bool{}
+	var us []acct
+	for _, a := range cs.Users {
+		if !seen[a.Name+"@"+a.Host] {
+			seen[a.Name+"@"+a.Host] = true
+			us = append(us, a)
+			if (a.Name == cs.Name || a.Name == "") && matchLiberal("127.0.0.1", a.Host) {
+				match = append(match, a)
+			}
+		}
+	}
+	cs.Users = us
+	if cs.Users == nil {
+		cs.Users = []acct{}
+	}
+	cs.Pw = lib.Pick(r, pws)
+	if len(match) > 0 && r.Chance(3, 4) {
+		want := lib.Pick(r, match).Auth
+		for _, pw := range pws {
+			if stored(pw) == want {
+				cs.Pw = pw
+			}
+		}
+	}
+	cs.Resp, cs.Note = nil, "real client"
+	return cs
+}
+
 func gen(r *lib.RNG) caseT {
+	if r.Chance(1, 12) {
+		return genWire(r)
+	}
 	switch k := r.Intn(20); {
 	case k < 6:
 		return genValidate(r)
@@ -597,6 +727,7 @@ func gen(r *lib.RNG) caseT {
 }
 
 func main() {
+	logrus.SetLevel(logrus.PanicLevel) // the server logs every connection
 	lib.Main("C40", func(c *lib.Ctx) {
 		c.Header = "From Coq Require Import List NArith.\nImport ListNotations.\nFrom GMS Require Import Sys.Auth Corr.C40.\nOpen Scope N_scope."
 		c.CaseType = "C40.case"
@@ -605,7 +736,7 @@ func main() {
 			"variant, honest / wrong-password / bit-flipped / truncated / oversized / empty / random response), hostpat (account host " +
 			"patterns vs client hosts, plus random patterns over an alphabet with regexp metacharacters and newline), sha (random " +
 			"messages, ties the Coq SHA-1 to crypto/sha1), login (0-5 accounts with host patterns, passwords, locked flags, plugins; " +
-			"a client name/host biased towards the accounts; responses as for validate). Non-trivial = an accepted login / a true " +
+			"a client name/host biased towards the accounts; responses as for validate), wire (1/12 of the cases: the same account tables served by server.NewServer on an ephemeral 127.0.0.1 port, a real login by go-sql-driver with a password, outcome + CURRENT_USER()). Non-trivial = an accepted login / a true " +
 			"verdict / a well-formed wrong response / a matching pattern; distinct = distinct inputs.")
 		if c.ReplayFile != "" {
 			var cs caseT
@@ -633,6 +764,10 @@ func main() {
 			{Kind: "login", Enabled: true, Users: []acct{{Name: "", Host: "%", Plugin: native}}, Name: "bob", Host: "@unix", Salt: salt, Resp: nil},
 			{Kind: "login", Enabled: true, Users: []acct{{Name: "u", Host: "127.%", Auth: stored("pw"), Locked: true, Plugin: native}}, Name: "u", Host: "127.0.0.1", Salt: salt, Resp: honest(salt, "pw")},
 			{Kind: "login", Enabled: false, Users: []acct{}, Name: "any", Host: "1.2.3.4", Salt: salt, Resp: nil},
+			{Kind: "wire", Enabled: true, Users: []acct{{Name: "u", Host: "127.%", Auth: stored("pw"), Plugin: native}}, Name: "u", Host: "127.0.0.1", Salt: salt, Pw: "pw"},
+			{Kind: "wire", Enabled: true, Users: []acct{{Name: "u", Host: "127.%", Auth: stored("pw"), Plugin: native}}, Name: "u", Host: "127.0.0.1", Salt: salt, Pw: "px"},
+			{Kind: "wire", Enabled: true, Users: []acct{{Name: "u", Host: "localhost", Auth: stored("pw"), Locked: true, Plugin: native}}, Name: "u", Host: "127.0.0.1", Salt: salt, Pw: "pw"},
+			{Kind: "wire", Enabled: true, Users: []acct{{Name: "", Host: "%", Auth: "", Plugin: native}, {Name: "v", Host: "10.%", Auth: stored("pw"), Plugin: native}}, Name: "bob", Host: "127.0.0.1", Salt: salt, Pw: ""},
 			{Kind: "hostpat", Host: "10.0.0.5", Pat: "10.%"},
 			{Kind: "hostpat", Host: "a\nb", Pat: "a%b"},
 			{Kind: "hostpat", Host: "10x0", Pat: "10.%"},
